@@ -437,8 +437,50 @@ class Executor:
                 items = list(it)
             elif isinstance(it, range):
                 items = list(it)
+            elif is_seq(it):
+                # a sequence whose length is provably bounded on this path: complete case split on the length (no invariant needed)
+                n_ = z3.Length(it)
+                bound = next((b for b in range(0, 9) if not self.feasible(s, n_ > b)), None)
+                if bound is None:
+                    raise Unsupported("for over a sequence of unbounded length (line %d); needs an invariant" % st.lineno)
+                for L in range(bound + 1):
+                    if not self.feasible(s, n_ == L):
+                        continue
+                    sL = s.fork()
+                    sL.pc.append(n_ == L)
+                    out.extend(self._for_items(st, sL, [it[i] for i in range(L)]))
+                continue
+            elif isinstance(it, Opaque) and self._loop_is_local_arithmetic(st):
+                # an unknown number of iterations of a body that only re-assigns local names with call-free expressions: its whole effect is
+                # over-approximated by havoc'ing those names (sound: nothing else can change), no invariant needed
+                names = {t.id for n_ in ast.walk(st) for t in ([n_.target] if isinstance(n_, (ast.AugAssign, ast.For)) else (n_.targets if isinstance(n_, ast.Assign) else []))
+                         if isinstance(t, ast.Name)}
+                for nm in sorted(names):
+                    s.env[nm] = Opaque("loop:%s@%d" % (nm, st.lineno))
+                out.append((s, None))
+                continue
             else:
                 raise Unsupported("for over non-concrete iterable (line %d); needs an invariant" % st.lineno)
+            out.extend(self._for_items(st, s, items))
+        return out
+
+    @staticmethod
+    def _loop_is_local_arithmetic(st):
+        if st.orelse or not isinstance(st.target, ast.Name):
+            return False
+        for n_ in ast.walk(ast.Module(body=st.body, type_ignores=[])):
+            if isinstance(n_, (ast.Call, ast.Attribute, ast.Subscript, ast.Return, ast.Raise, ast.Break, ast.Continue, ast.While, ast.With, ast.Try, ast.Global, ast.Nonlocal,
+                               ast.Yield, ast.YieldFrom, ast.Await, ast.Lambda, ast.FunctionDef, ast.ClassDef, ast.Delete, ast.Import, ast.ImportFrom, ast.NamedExpr)):
+                return False
+            if isinstance(n_, (ast.Assign, ast.AugAssign)):
+                tg = n_.targets if isinstance(n_, ast.Assign) else [n_.target]
+                if not all(isinstance(t, ast.Name) for t in tg):
+                    return False
+        return True
+
+    def _for_items(self, st, s, items):
+        if True:
+            out = []
             live = [(s, None)]
             for item in items:
                 nxt = []
